@@ -767,7 +767,7 @@ impl Interp {
                 let argv = self.eval_list(args, frame)?;
                 self.call(&fv, argv)
             }
-            Expr::MethodCall(o, m, args, _) => {
+            Expr::MethodCall(o, m, args, _, _) => {
                 self.tick()?;
                 let ov = self.eval(o, frame)?;
                 let fv = self.index(&ov, &Value::str(m))?;
